@@ -74,7 +74,7 @@ def run_case(rs, ctx):
     arms = list(gen.LABELS[labels][:n_arms])
     dims = int(rs.integers(1, 5))
     lp = gen.gen_lp(rs, lk, deterministic=True) if lk != "eg_explore" else {"kind": "eg", "epsilon": float(gen.pick(rs, [0.3, 1.0]))}
-    stress = int(rs.integers(6)) if (rs.integers(5) == 0 and lk not in ("linucb", "lingreedy")) else None
+    stress = int(rs.integers(8)) if (rs.integers(5) == 0 and lk not in ("linucb", "lingreedy")) else None
     pre = {"arms": arms, "labels": labels, "lp": lp, "np": {"kind": pk}, "reward_stress": stress}
     n_chunks = int(rs.integers(1, 6))
     sizes = [int(rs.integers(3, 12))] + [int(rs.integers(1, 8)) for _ in range(n_chunks - 1)]
